@@ -1102,6 +1102,30 @@ Section Closure.
       + rewrite Htoks. exact I.
   Qed.
 
+  (* such an expression never starts with the name of a function that takes arguments *)
+  Lemma base_head_not_call w lvl e t0 ts : base_ok w e ->
+    toks_of_pieces (fmt_expr fx lvl e) = t0 :: ts -> ttype t0 = T_IDENT -> func_of E (tlit t0) <> Some false.
+  Proof.
+    intros (Hf & Hp & Hl & _ & Hv) Ht Hid.
+    pose proof (render_to_lexp fx e false lvl Hf Hp Hl) as Hren. cbn [wsl] in Hren. rewrite app_nil_r in Hren.
+    rewrite <- Hren in Ht. destruct (render_first (to_lexp false e)) as [r0 Hr0]. rewrite Hr0 in Ht. inversion Ht; subst t0.
+    rewrite (first_tok_not_call E _ (atoms_to_lexp E e false Hf Hp Hl Hv) Hid). discriminate.
+  Qed.
+
+  Lemma item_head_not_call e : forall w lvl t0 ts, item_ok w e ->
+    toks_of_pieces (fmt_expr fx lvl e) = t0 :: ts -> ttype t0 = T_IDENT -> func_of E (tlit t0) <> Some false.
+  Proof.
+    induction e as [n|b t|v q|b|e IH|items els IH|items keys vals IH|n args IH|op r IH|op w0 l r IHl IHr|l i IHl IHi|l s e IHl IHs IHe|l k IHl|l t IHl|e IH] using fexpr_ind';
+      intros w lvl t0 ts Hok Ht Hid; try (apply (base_head_not_call w lvl _ t0 ts Hok Ht Hid)).
+    - cbn [item_ok fmt_expr] in *. eapply IH; eauto.
+    - cbn [fmt_expr] in Ht. unfold fmt_array in Ht. destruct (format_multiline items); inversion Ht; subst; discriminate Hid.
+    - cbn [fmt_expr] in Ht. unfold fmt_map in Ht. destruct (format_multiline items); inversion Ht; subst; discriminate Hid.
+    - destruct args as [|a r].
+      + destruct Hok as [Hn Hfn]. rewrite (toks_call lvl n [] Hn) in Ht. inversion Ht; subst. cbn [tlit ident_tok]. rewrite Hfn. discriminate.
+      + destruct Hok as (Hf & _). discriminate Hf.
+    - cbn [fmt_expr] in Ht. inversion Ht; subst. discriminate Hid.
+  Qed.
+
   (* C06, list level: every such expression round-trips as a whole, as a list item (w = true) or not *)
   Theorem item_rt w lvl e : item_ok w e -> RTH w lvl e.
   Proof. apply (proj1 (item_rt_aux e)). Qed.
